@@ -456,7 +456,7 @@ Proof.
   - destruct (dec_f oc k b) as [[v r1]|] eqn:E; [|discriminate].
     destruct (dec_rest oc L r1) as [[vs' r']|] eqn:E2; [|discriminate].
     intros H; inversion H; subst.
-    destruct (field_dec_valid oc k b v r1 Hw E) as (_ & Hw1 & _).
+    destruct (field_dec_valid_any oc k b v r1 Hw E) as (_ & Hw1 & _).
     apply (IH _ _ _ Hw1 E2).
 Qed.
 
@@ -603,7 +603,7 @@ Section Msg.
   Lemma cond_valid vs b cs r :
     wf_bytes b -> decode_cond oc M vs b = Some (cs, r) ->
     valid_cond oc M vs cs = true /\ wf_bytes r /\
-    exists e, encode_cond M vs cs = Some e /\ (length e + length r <= length b)%nat /\
+    exists e, encode_cond M vs cs = Some e /\
               forall s, decode_cond oc M vs (e ++ s) = Some (cs, s).
   Proof.
     intros Hw. unfold decode_cond, valid_cond, encode_cond.
@@ -614,7 +614,7 @@ Section Msg.
     intros H. pose proof (dec_rest_wf _ _ _ _ _ Hw H) as Hwr.
     rewrite dec_rest_is in *.
     destruct (decode_rest_valid oc Lc b cs r Hw H) as (Hv & e & He & Hl & _).
-    split; [assumption|]. split; [assumption|]. exists e. split; [assumption|]. split; [assumption|].
+    split; [assumption|]. split; [assumption|]. exists e. split; [assumption|].
     pose proof (ok_cond _ _ _ Ec) as Hn.
     destruct (layout_roundtrip_rest oc Lc (nonterm_lay_ok _ Hn) cs Hv) as (e' & He' & _ & Hr).
     rewrite He in He'. inversion He'; subst e'. intros s. rewrite dec_rest_is. apply Hr. exact Hn.
@@ -748,7 +748,7 @@ Qed.
 Lemma enc_f_nonempty k L v a :
   starts_nonempty (k :: L) = true -> enc_f k v = Some a -> (1 <= length a)%nat.
 Proof.
-  destruct k as [[|n]|[|n]| | | | | | | | | | |]; try discriminate; intros _; destruct v as [x|b];
+  destruct k as [[|n]|[|n]| | | | | | | | | | | |]; try discriminate; intros _; destruct v as [x|b];
     cbn [enc_f]; try discriminate.
   - intros H. injection H as <-. rewrite app_length. cbn [length]. lia.
   - destruct (Nat.eqb (length b) (S n)) eqn:E; [|discriminate]. apply Nat.eqb_eq in E.
@@ -922,7 +922,7 @@ Proof.
     destruct Hv as [Hvk Hvs]. cbn [encode] in He.
     destruct (enc_f k v) as [a|] eqn:Ea; [|discriminate].
     destruct (encode L vs) as [q|] eqn:Eq; [|discriminate]. injection He as <-.
-    destruct k as [[|n]| | | | | | | | | | | |]; try discriminate.
+    destruct k as [[|n]| | | | | | | | | | | | |]; try discriminate.
     + (* FU (S n) *)
       assert (HokL : eof_ok L = true) by exact Hok.
       destruct (field_roundtrip oc _ _ Hvk eq_refl) as (a' & Ha' & Hd). rewrite Ea in Ha'.
